@@ -18,7 +18,7 @@ use std::time::Duration;
 use crate::procs::HTTP_RESPONSE as HTTP_OK;
 
 fn free_tcp_port() -> u16 {
-    TcpListener::bind("127.0.0.1:0").unwrap().local_addr().unwrap().port()
+    TcpListener::bind(SocketAddr::new(std::net::IpAddr::V4(crate::rig::rig_ip()), 0)).unwrap().local_addr().unwrap().port()
 }
 
 pub fn run_scenario(batch: u8, hc: bool, per_client: bool, slow: bool, steps: &[String]) -> String {
@@ -53,7 +53,7 @@ pub fn run_scenario(batch: u8, hc: bool, per_client: bool, slow: bool, steps: &[
                     rig.send(k, &d);
                 }
                 "t" => {
-                    let addr: SocketAddr = format!("127.0.0.1:{}", hc_port.unwrap()).parse().unwrap();
+                    let addr: SocketAddr = SocketAddr::new(std::net::IpAddr::V4(crate::rig::rig_ip()), hc_port.unwrap());
                     let st = TcpStream::connect_timeout(&addr, Duration::from_secs(2)).expect("connect health port");
                     st.set_nonblocking(true).unwrap();
                     conns.push((st, false));
